@@ -29,6 +29,7 @@
 //!   R12 invocations of the crate's own single-rule macro_rules macros (src/lib.rs) are expanded textually
 //!   R10h (`//@loop n iter=it hoist`) `for P in E {` -> `let __itN = verif_hoist(E); let ghost __itsN = __itN@; for P in it: __itN {`
 //!   R14 (with R10h) `V.into_iter().rev()` -> `verif_rev_vec(V)`
+//!   R20 an item (nested fn) declared inside the extracted body is dropped from the body text
 //!   R19 / R19b (`//@extract .. lower=fold,for_each`) `X.fold(init, |acc, item| BLOCK)` / `X.for_each(|item| BLOCK)` -> loops over the visited items
 //!   R18 (`//@replace_text` + FROM line + TO line) the unique occurrence of the text FROM (modulo whitespace) -> TO
 //!   R17 (`//@rename_call FROM TO`) method calls `.FROM(..)` -> `.TO(..)`
@@ -466,6 +467,12 @@ impl<'a, 'ast> Visit<'ast> for Scanner<'a> {
                 syn::Stmt::Expr(syn::Expr::Return(r), _) => r.expr.as_ref().map(|x| self.src.range(x.span())),
                 _ => None,
             };
+            if let syn::Stmt::Item(_) = st {
+                // R20: an item declared inside the body (a nested helper function) is not part of the body text; it is
+                // extracted on its own (`//@extract .. inner=NAME`) and enters here through its contract
+                self.scan.rewrites.push((s, e, String::new(), "R20".into()));
+                continue;
+            }
             self.scan.stmt_stack.push(StmtInfo { start: s, end: e, is_tail_value: is_tail_value && ret_expr.is_none(), ret_expr });
             if let syn::Stmt::Local(l) = st {
                 let mut ids = vec![];
